@@ -266,6 +266,36 @@ Loop:
 	return nil
 }
 
+// failMsg completes a request with an error reply; every fragment of it is finished.
+func failMsg(msg *Msg, e codec.Error) {
+	msg.Error = e
+	msg.FragDoneNumber = len(msg.Body)
+	msg.RspBody = append(msg.RspBody[:0], e.Bytes()...)
+	msg.Done = true
+	for _, v := range msg.Body {
+		v.Done = true
+	}
+}
+
+// failPending answers every request that still waits for the redis connection s, whether its
+// fragment is queued for writing or already written, with an error: the reply will never come.
+func (el *eventloop) failPending(s *conn, e codec.Error) {
+	for _, q := range []*FragQueue{s.outFragQueue, s.inFragQueue} {
+		if q == nil {
+			continue
+		}
+		for f := q.head; f != nil; f = f.prev {
+			if f.Owner == nil || f.Peer == nil || f.Done || f.Peer.Done {
+				continue
+			}
+			failMsg(f.Peer, e)
+			if c, ok := f.Owner.(*conn); ok {
+				el.flushDone(c)
+			}
+		}
+	}
+}
+
 // flushDone writes the replies of the completed requests at the head of the client's queue
 // back to the client, in request order, and releases them.
 func (el *eventloop) flushDone(c *conn) {
@@ -409,6 +439,7 @@ func (el *eventloop) closeConn(c *conn, err error, closeType ConnCloseType) (rer
 			GlobalStats.ClientConnectionsClientErr.WithLabelValues().Inc()
 		}
 	case ConnServer:
+		el.failPending(c, codec.ErrBackendClosed)
 		el.eventHandler.OnSClosed(c, err)
 		el.addSConn(-1)
 		switch closeType {
